@@ -99,6 +99,9 @@ def region_cases(draw):
     extra = ''
     if kind == 'dol':
         extra = draw(st.sampled_from(R.TAGS))
+        if extra and draw(st.integers(0, 3)) == 0:
+            # the tag in another letter case is ordinary body text (tags are case-sensitive)
+            body = body + draw(st.sampled_from(['$%s$', ' $%s$ ;', '$$%s'])) % extra.swapcase()
     elif kind == 'sl':
         extra = draw(st.sampled_from(['\n', '\r', '\r\n', '']))
     return {'kind': kind, 'body': body, 'left': draw(st.sampled_from(LEFT)), 'right': draw(st.sampled_from(RIGHT)), 'extra': extra}
